@@ -19,3 +19,15 @@ mod c09_value;
 
 #[cfg(kani)]
 mod c19_equihash;
+
+#[cfg(kani)]
+mod c20_history;
+
+#[cfg(kani)]
+mod c12_memo;
+
+#[cfg(kani)]
+mod c03_codecs;
+
+#[cfg(kani)]
+mod c10_f4jumble;
